@@ -15,11 +15,15 @@ MODELS       target c, target py (all support files are templates -> _generate_h
              Over a two-type namespace ns.A.1.0, ns.sub.B.1.0.
 INITIAL      empty `out/`; one foreign 0o640 file; a 0o444 leftover with foreign content at a type-file path; the same at
              a support-file path.
-SEARCH       level-synchronous BFS with deduplication by snapshot; a state is rebuilt by copying its stored directory
-             image (content+modes), never by replaying; thorough: all events, every history of length <= 3, then further
-             levels while one costs <= EXTRA_LEVEL_BUDGET runs (depth <= 6); quick: 24 core events (cpp: 16) + the
-             seed-selected 1/16 slice of the others, length <= 2.  If a level discovers no new state the graph is closed
-             and every history of any length over the alphabet has been covered.
+FAMILIES     the events above are family A; family B = all five modes {0o444,0o644,0o600,0o464,0o446} (the last two:
+             owner-write clear, group/other write set) with no explicit post-processor; family C = modes {0o444,0o644} x
+             {none, --pp-run-program <script>, the same + --pp-run-program-arg}; the script appends a marker line in place.
+SEARCH       per family: level-synchronous BFS with deduplication by snapshot; a state is rebuilt by copying its stored
+             directory image (content+modes), never by replaying; (state, event) pairs shared by families run once.
+             thorough: the whole family, every history of length <= 3, then further levels while one costs <=
+             EXTRA_LEVEL_BUDGET runs (depth <= 6); quick: the core events (c/py 18, cpp 14) + the seed-selected 1/16
+             slice of the family, length <= 2 - so every quick history is a thorough history.  If a level discovers no
+             new state the graph is closed and every history of any length over the family has been covered.
 CROSS-CHECKS the clean-run table is computed twice (cold process without template cache / warm process with it) and must
              agree; 1/16 of the stored images and every violation are re-derived by really replaying the recorded history
              from the initial state; the tree under test must not change while the search runs.
@@ -568,17 +572,20 @@ def run(ctx: Ctx) -> int:
     _setup(ctx.scratch)
     depth_bound = 3 if ctx.thorough else 2
     models = list(MODELS)
-    alphabets = {
-        m: [
-            e.eid
-            for e in all_events()
-            if e.gs in MODELS[m]["gs"] and (is_core(e, m) or ctx.in_slice("C12/event/" + e.eid))
-        ]
-        for m in models
-    }
+    fams = list(FAMILIES)
+    # alphabet of (model, family): thorough = the whole family; quick = core + seed slice of the family
+    alph: typing.Dict[typing.Tuple[str, str], typing.List[str]] = {}
+    space: typing.Dict[typing.Tuple[str, str], int] = {}
+    for m in models:
+        for f in fams:
+            full = [e for e in all_events() if e.gs in MODELS[m]["gs"] and in_family(e, f)]
+            space[(m, f)] = len(full)
+            alph[(m, f)] = [e.eid for e in full if is_core(e, m) or ctx.in_slice("C12/event/" + e.eid)]
+    used = {m: sorted({e for f in fams for e in alph[(m, f)]}) for m in models}
+    universe = {m: len({e.eid for e in all_events() if e.gs in MODELS[m]["gs"] and any(in_family(e, f) for f in fams)}) for m in models}
 
     # 1. clean-run table: cold (no bytecode cache, pristine process image) ...
-    jobs = [(m, e, False) for m in models for e in sorted(set(alphabets[m]) | {E_SUPPORT_ONLY, E_TYPES_ONLY})]
+    jobs = [(m, e, False) for m in models for e in sorted(set(used[m]) | {E_SUPPORT_ONLY, E_TYPES_ONLY})]
     cold = ctx.pool_map(_ref_job, jobs)
     # ... warm this process up (imports, template bytecode, nunavut's own lru_caches) so that every later fork starts
     # from one and the same warm image, and recompute the table warm: both must agree byte for byte.
@@ -601,79 +608,109 @@ def run(ctx: Ctx) -> int:
         _G.refs[(m, e)] = a
     for m in models:
         model_info(m)
-        for e in alphabets[m]:
+        for e in used[m]:
             get_ref(m, e)
+    # the program events must really differ from the plain ones, in every generated file (else they test nothing)
+    for m in models:
+        for e in used[m]:
+            ev = EVENTS[e]
+            if ev.pp in ("prog", "progarg"):
+                plain = get_ref(m, ev._replace(pp="none").eid)["files"] if ev._replace(pp="none").eid in used[m] else None
+                mine = get_ref(m, e)["files"]
+                if plain is not None and any(mine[p][0] == plain[p][0] for p in mine):
+                    raise HarnessError(f"vacuous exploration: [{m}] clean run of {e} leaves a generated file that the external program did not edit")
 
     # 2. initial states
-    seen: typing.Dict[str, typing.Dict[str, dict]] = {m: {} for m in models}
-    frontier: typing.List[typing.Tuple[str, str]] = []
+    inits: typing.Dict[str, typing.List[typing.Tuple[str, str]]] = {m: [] for m in models}
     for m in models:
         (_G.images / m).mkdir(exist_ok=True)
         for init in INITS:
             tmp = _fresh_dir("init")
             build_init(m, init, tmp)
             key = fsm.key_of(fsm.snap(tmp))
-            if key in seen[m]:
-                raise HarnessError(f"[{m}] initial states {init} and {seen[m][key]['init']} coincide")
+            if key in [k for k, _ in inits[m]]:
+                raise HarnessError(f"[{m}] two initial states coincide ({init})")
             os.rename(tmp, _image(m, key))
-            seen[m][key] = {"init": init, "history": [], "depth": 0}
-            frontier.append((m, key))
+            inits[m].append((key, init))
 
-    # 3. BFS
-    transitions = 0
+    # 3. one BFS per family; (state, event) pairs already executed for another family are not executed again
+    done: typing.Dict[typing.Tuple[str, str, str], str] = {}  # (model, state, event) -> successor state
+    origin: typing.Dict[typing.Tuple[str, str], dict] = {}  # first way a state was reached (any family)
     nontrivial = 0
     outcomes: typing.Dict[tuple, dict] = {}
     totals: typing.Dict[str, int] = collections.Counter()
-    per_level: typing.List[typing.Dict[str, int]] = []
     edges_per_model: typing.Dict[str, int] = collections.Counter()
-    completed = 0
+    fam_report: typing.Dict[str, dict] = {}
     # thorough: beyond the guaranteed depth the search goes on while a level costs at most EXTRA_LEVEL_BUDGET runs, to
     # find out whether the graph closes (then histories of every length are covered); quick stops at its depth.
     max_depth = 6 if ctx.thorough else depth_bound
-    while frontier:
-        depth = completed + 1
-        if depth > depth_bound and (depth > max_depth or sum(len(alphabets[m]) for m, _ in frontier) > EXTRA_LEVEL_BUDGET):
-            break
-        bfs_jobs = []
-        for m, key in frontier:
-            st = seen[m][key]
-            for ch in _chunks(alphabets[m], 9):
-                bfs_jobs.append((m, st["init"], key, st["history"], ch))
-        results = ctx.pool_map(_bfs_job, bfs_jobs)
-        new: typing.List[typing.Tuple[str, str]] = []
-        for (m, init, key, history, _), rs in zip(bfs_jobs, results):
-            for r in rs:
-                transitions += 1
-                edges_per_model[m] += 1
-                for k, v in r["stats"].items():
-                    totals[k] += v
-                nontrivial += r["stats"].get("nontrivial", 0)
-                if r["outcome"] not in outcomes:
-                    outcomes[r["outcome"]] = {"model": m, "init": init, "history": history + [r["eid"]]}
-                for sig, case, what in r["viols"]:
-                    ctx.violation(sig, case, what)
-                if r["dst"] not in seen[m]:
-                    seen[m][r["dst"]] = {"init": init, "history": history + [r["eid"]], "depth": depth}
-                    new.append((m, r["dst"]))
-        _check_tree_unchanged(tree)
-        per_level.append({m: sum(1 for mm, _ in new if mm == m) for m in models})
-        completed = depth
-        frontier = new
-    closed = not frontier
-    closed_models = [m for m in models if not any(mm == m for mm, _ in frontier)]
-    n_states = sum(len(v) for v in seen.values())
+    for f in fams:
+        seen: typing.Dict[str, typing.Dict[str, dict]] = {m: {} for m in models}
+        frontier: typing.List[typing.Tuple[str, str]] = []
+        for m in models:
+            for key, init in inits[m]:
+                seen[m][key] = {"init": init, "history": [], "depth": 0}
+                origin.setdefault((m, key), seen[m][key])
+                frontier.append((m, key))
+        per_level: typing.List[typing.Dict[str, int]] = []
+        completed = 0
+        while frontier:
+            depth = completed + 1
+            todo = [(m, key, [e for e in alph[(m, f)] if (m, key, e) not in done]) for m, key in frontier]
+            if depth > depth_bound and (depth > max_depth or sum(len(t[2]) for t in todo) > EXTRA_LEVEL_BUDGET):
+                break
+            bfs_jobs = []
+            for m, key, eids in todo:
+                st = seen[m][key]
+                for ch in _chunks(eids, 9):
+                    bfs_jobs.append((m, st["init"], key, st["history"], ch))
+            results = ctx.pool_map(_bfs_job, bfs_jobs)
+            for (m, init, key, history, _), rs in zip(bfs_jobs, results):
+                for r in rs:
+                    done[(m, key, r["eid"])] = r["dst"]
+                    edges_per_model[m] += 1
+                    for k, v in r["stats"].items():
+                        totals[k] += v
+                    nontrivial += r["stats"].get("nontrivial", 0)
+                    if r["outcome"] not in outcomes:
+                        outcomes[r["outcome"]] = {"model": m, "init": init, "history": history + [r["eid"]]}
+                    for sig, case, what in r["viols"]:
+                        ctx.violation(sig, case, what)
+            new: typing.List[typing.Tuple[str, str]] = []
+            for m, key in frontier:
+                st = seen[m][key]
+                for e in alph[(m, f)]:
+                    dst = done[(m, key, e)]
+                    if dst not in seen[m]:
+                        seen[m][dst] = {"init": st["init"], "history": st["history"] + [e], "depth": depth}
+                        origin.setdefault((m, dst), seen[m][dst])
+                        new.append((m, dst))
+            _check_tree_unchanged(tree)
+            per_level.append({m: sum(1 for mm, _ in new if mm == m) for m in models})
+            completed = depth
+            frontier = new
+        fam_report[f] = {
+            "events": {m: f"{len(alph[(m, f)])}/{space[(m, f)]}" for m in models},
+            "states": {m: len(seen[m]) for m in models},
+            "new_states_per_level": per_level,
+            "depth_completed": completed,
+            "closed_for": [m for m in models if not any(mm == m for mm, _ in frontier)],
+            "unexpanded_frontier": len(frontier),
+        }
+    transitions = len(done)
+    n_states = len(origin)
+    closed = all(len(r["closed_for"]) == len(models) for r in fam_report.values())
+    completed_min = min(r["depth_completed"] for r in fam_report.values())
 
     # 4. the stored images must be what the recorded histories really produce (1/16 of the states, stable choice),
     #    and every violation must reappear when its history is replayed for real from the initial state.
-    check_states = [
-        (m, k) for m in models for k, st in sorted(seen[m].items()) if st["history"] and stable_hash("C12/img/" + k) % 16 == 0
-    ]
-    reps = ctx.pool_map(_replay_job, [(m, seen[m][k]["init"], seen[m][k]["history"]) for m, k in check_states])
+    check_states = [mk for mk, st in sorted(origin.items()) if st["history"] and stable_hash("C12/img/" + mk[1]) % 16 == 0]
+    reps = ctx.pool_map(_replay_job, [(m, origin[(m, k)]["init"], origin[(m, k)]["history"]) for m, k in check_states])
     _check_tree_unchanged(tree)
     for (m, k), rep in zip(check_states, reps):
         if rep["final"] != k:
             raise HarnessError(
-                f"[{m}] state {k} is not what its history {seen[m][k]['init']} + {seen[m][k]['history']} produces "
+                f"[{m}] state {k} is not what its history {origin[(m, k)]['init']} + {origin[(m, k)]['history']} produces "
                 f"({rep['final']}; replayed steps: {[(st['eid'], st['rc'], st['exc'], st['dst']) for st in rep['steps']]}): "
                 "execution is not a function of (directory state, event) - transient failure or changing environment"
             )
@@ -686,28 +723,30 @@ def run(ctx: Ctx) -> int:
             raise HarnessError(f"violation {v.sig} did not reappear when {v.case} was replayed from its initial state: {again}")
 
     # 5. vacuity guards + evidence
-    need = ["ok_overwrote_read_only", "ok_overwrote_writable", "ok_replaced_different_content", "conflict_reported",
-            "conflict_reported_after_creating_files", "ok_nothing_in_the_way"]
+    need = [
+        "ok_overwrote_read_only",
+        "ok_overwrote_writable",
+        "ok_overwrote_owner_ro_but_group_or_other_writable",
+        "ok_program_run_over_other_content",
+        "ok_replaced_different_content",
+        "conflict_reported",
+        "conflict_reported_after_creating_files",
+        "ok_nothing_in_the_way",
+    ]
     if not ctx.bag.v:
         missing = [k for k in need if not totals.get(k)]
         if missing:
             raise HarnessError(f"vacuous exploration: never observed {missing}")
-        for m in models:
-            inf = model_info(m)
-            if not any(r for (mm, e), r in _G.refs.items() if mm == m and inf["leftover_support"] in r["files"]):
-                raise HarnessError(f"[{m}] no event writes the support leftover path")
     by_kind: typing.Dict[tuple, dict] = {}
     for k, v in sorted(outcomes.items(), key=lambda kv: (-len(kv[1]["history"]), str(kv[0]))):
         by_kind.setdefault((k[1], k[2], k[4]), dict(v, outcome=[k[0], k[1], k[2], list(k[3]), k[4]]))
     ctx.samples = [by_kind[k] for k in sorted(by_kind)][:6]
     ctx.stats.update(totals)
     ctx.stats.update(
-        alphabet={m: len(alphabets[m]) for m in models},
-        new_states_per_level=per_level,
-        models_with_closed_graph=closed_models,
-        unexpanded_frontier=len(frontier),
+        events_used={m: f"{len(used[m])}/{universe[m]}" for m in models},
+        families=fam_report,
         transitions_per_model=dict(edges_per_model),
-        states_per_model={m: len(seen[m]) for m in models},
+        states_per_model={m: sum(1 for mm, _ in origin if mm == m) for m in models},
         clean_runs=2 * len(jobs),
         images_revalidated_by_real_replay=len(check_states),
         violations_reexecuted=len(vlist),
@@ -720,32 +759,35 @@ def run(ctx: Ctx) -> int:
         "distinct_nontrivial": nontrivial,
         "distinct_outcomes": len(outcomes),
         "graph_closed": closed,
-        "depth_completed": completed,
+        "depth_completed": completed_min,
         "rule": "state = canonical snapshot (path -> sha256, mode) of the sandbox around out/, deduplicated; transition = "
         "one real nnvg run in a forked child without CAP_DAC_OVERRIDE on a copy of the stored image of the state; every "
-        "(state, event) pair is executed once, so transitions are distinct by construction; non-trivial = the event "
-        "writes at least one path that already exists in the state (overwrite or --no-overwrite conflict); outcome = "
-        "(model, ok | exception class, overwrite flag, {file class:read-only|writable} in the way, partial effect)",
-        "bound_completed": f"{len(INITS)} initial states x models "
-        + ", ".join(f"{m} ({len(alphabets[m])}/{sum(1 for e in EVENTS.values() if e.gs in MODELS[m]['gs'])} events)" for m in models)
-        + f", all histories of length <= {completed}"
-        + (
-            " - the last level found no new state: the reachable graph is closed, histories of every length are covered"
-            if closed
-            else (f"; graph closed (histories of every length) for {closed_models}" if closed_models else "")
-        ),
+        "(state, event) pair is executed once (also across families), so transitions are distinct by construction; "
+        "non-trivial = the event writes at least one path that already exists in the state (overwrite or --no-overwrite "
+        "conflict); outcome = (model, ok | exception class, overwrite flag, {file class:read-only|owner-read-only but "
+        "group/other-writable|writable} in the way, partial effect)",
+        "bound_completed": f"{len(INITS)} initial states x models {models} x event families "
+        + "; ".join(
+            f"{f} (modes {[oct(x) for x in FAMILIES[f][0]]} x post-processors {list(FAMILIES[f][1])}: events "
+            f"{fam_report[f]['events']}, all histories of length <= {fam_report[f]['depth_completed']}"
+            + (", graph closed" if len(fam_report[f]["closed_for"]) == len(models) else f", closed for {fam_report[f]['closed_for']}")
+            + ")"
+            for f in fams
+        )
+        + (" - every family graph is closed: histories of every length within each family are covered" if closed else ""),
         "exhaustive": bool(ctx.thorough),
     }
     return ctx.finish(
         "model_checking",
         cov,
         [
-            "uid 0 minus CAP_DAC_OVERRIDE/CAP_DAC_READ_SEARCH behaves like an ordinary owner of the files (probed on a 0o444 file in every worker)",
+            "uid 0 minus CAP_DAC_OVERRIDE/CAP_DAC_READ_SEARCH (also removed from the bounding set, so exec'd programs do not regain them) behaves like an ordinary owner of the files (probed on a 0o444 file in every worker, in-process and through /bin/sh)",
             "wall clock frozen (datetime.utcnow in nunavut.jinja, time.time seen by gzip) so that the clean-run bytes are a value",
             "Jinja template bytecode cached in memory per process through the engine's bytecode_cache hook; the clean-run table is computed without it and again with it and must agree",
             "nnvg = nunavut.cli.main() in-process with sys.argv set; an escaping exception counts as a reported failure (the console script turns it into exit status 1)",
             "two-type namespace, targets c / py / cpp; SupportGenerator._copy_header is reached only through an injected plain TYPE_SUPPORT resource (no shipped language has one)",
-            "read-only directories, symlinks and non-regular files in the output tree are out of scope (the statement speaks of files)",
+            "the 300-event product of all option values is explored as three families (line post-processors / all five modes / external program), not as one graph: histories mixing e.g. mode 0o464 with the external program are not covered",
+            "the external program is a 4-line /bin/sh script that appends one marker line; read-only directories, symlinks and non-regular files in the output tree are out of scope (the statement speaks of files)",
         ],
         min_outcomes=("distinct_outcomes", 12),
     )
